@@ -107,6 +107,18 @@ package silence
 //@   assigns nothing
 //@   noeffect slices.EqualFunc
 
+// the comparison canUpdate hands to slices.EqualFunc: two matcher sets count as the same only if they have the same
+// matchers in the same order - type (=, !=, =~, !~), name and pattern of each. Assumed (protobuf library): proto.Equal
+// on two non-nil MatcherSet messages is exactly that field-wise equality (the messages carry no other known fields).
+//@ spec sameMatcher(m *pb.Matcher, n *pb.Matcher) bool = m.Type == n.Type && m.Name == n.Name && m.Pattern == n.Pattern
+//@ spec sameMatcherSet(x *pb.MatcherSet, y *pb.MatcherSet) bool = len(x.Matchers) == len(y.Matchers)
+//@     && (forall i int :: 0 <= i && i < len(x.Matchers) ==> sameMatcher(x.Matchers[i], y.Matchers[i]))
+//@ func canUpdate$1
+//@   props C12 C02
+//@   after call proto.Equal assume x != nil && y != nil ==> res0 == sameMatcherSet(x, y)
+//@   ensures [an-edit-that-changes-any-matcher-is-not-an-update-in-place] x != nil && y != nil ==> result == sameMatcherSet(x, y)
+//@   assigns nothing
+
 // ---- representation invariant of the silence store (the parts the replicated-merge and lifecycle proofs need):
 // every stored silence is well-formed and filed under its own id; versions in the version index never exceed the
 // store's version counter.
